@@ -153,10 +153,20 @@ func c01Check(c *Ctx, doc *XElem, rv int, cfg Cfg, allEntry bool) {
 			return mxj.NewMapXmlReader(bytes.NewReader([]byte(xmlText)), cfg.Cast)
 		}, cfg.Cast},
 		{"NewMapXmlReader(io.Reader)", func() (map[string]interface{}, error) {
+			if !cfg.Cast && len(xmlText)%2 == 0 {
+				return mxj.NewMapXmlReader(plainReader{strings.NewReader(xmlText)}) // no argument = false
+			}
 			return mxj.NewMapXmlReader(plainReader{strings.NewReader(xmlText)}, cfg.Cast)
 		}, cfg.Cast},
 		{"NewMapXmlReaderRaw", func() (map[string]interface{}, error) {
-			mm, r, e := mxj.NewMapXmlReaderRaw(strings.NewReader(xmlText), cfg.Cast)
+			var mm mxj.Map
+			var r []byte
+			var e error
+			if !cfg.Cast && len(xmlText)%2 == 1 {
+				mm, r, e = mxj.NewMapXmlReaderRaw(strings.NewReader(xmlText)) // no argument = false
+			} else {
+				mm, r, e = mxj.NewMapXmlReaderRaw(strings.NewReader(xmlText), cfg.Cast)
+			}
 			raw = r
 			return mm, e
 		}, cfg.Cast},
@@ -196,7 +206,7 @@ func c01Decos(base *XElem, thorough bool) []Deco {
 	els := base.elems()
 	attrNames := []string{"x", "y", "x-y", "n:x", "X", "a"}
 	attrVals := []string{"v", "1", " v ", "<&\"'>", "it's", "\"q\""}
-	textVals := []string{"t", " t ", "1", "1.5", "true", "a&b<c>", "\tt\n", "x y", "it's", "\"q\"", "\u00a0t\u2028", "\u3000", "010"}
+	textVals := []string{"t", " t ", "1", "1.5", "true", "a&b<c>", "\tt\n", "x y", "it's", "\"q\"", "\u00a0t\u2028", "\u3000", "010", "\u010dx\u2020"}
 	renames := []string{"B", "a-b", "a_b", "n:a", "A", "\u00c9a", "\u212a"}
 	for i, e := range els {
 		nk := len(e.Items)
